@@ -17,6 +17,22 @@ pub open spec fn bounds_inv(ops: Seq<DiffOp>, for_old: bool, k: int, start: int,
     &&& k > 0 ==> (end == 0 || exists|i: int| 0 <= i < k && op_span(#[trigger] ops[i], for_old).1 == end)
 }
 /// line table invariant: every line is a well-formed byte range inside the content and lines do not overlap, in order
+/// hunk_line_bounds as a fold: smallest span start / largest span end over the first k ops
+pub open spec fn fold_start(ops: Seq<DiffOp>, for_old: bool, k: int) -> int
+    decreases k
+{
+    if k <= 0 { usize::MAX as int } else { let p = fold_start(ops, for_old, k - 1); let s = op_span(ops[k - 1], for_old).0; if s < p { s } else { p } }
+}
+pub open spec fn fold_end(ops: Seq<DiffOp>, for_old: bool, k: int) -> int
+    decreases k
+{
+    if k <= 0 { 0 } else { let p = fold_end(ops, for_old, k - 1); let e = op_span(ops[k - 1], for_old).1; if e > p { e } else { p } }
+}
+/// what hunk_line_bounds returns
+pub open spec fn hunk_bounds(ops: Seq<DiffOp>, for_old: bool) -> (int, int) {
+    let s = fold_start(ops, for_old, ops.len() as int);
+    if s == usize::MAX { (0, 0) } else { (s, fold_end(ops, for_old, ops.len() as int)) }
+}
 spec fn wf_lines(lines: Seq<LineMetadata>, content_len: int) -> bool {
     &&& forall|i: int| 0 <= i < lines.len() ==> (#[trigger] lines[i]).start <= lines[i].end && lines[i].end <= content_len
     &&& forall|i: int, j: int| 0 <= i < j < lines.len() ==> (#[trigger] lines[i]).end <= (#[trigger] lines[j]).start
@@ -114,6 +130,7 @@ fn hunk_line_bounds(ops: &[DiffOp], for_old: bool) -> (r_: (usize, usize))
 //@         r_ != (0usize, 0usize) ==> (forall|i: int| 0 <= i < ops@.len() ==> r_.0 <= op_span(#[trigger] ops@[i], for_old).0 && op_span(ops@[i], for_old).1 <= r_.1),
 //@         r_ != (0usize, 0usize) ==> (exists|i: int| 0 <= i < ops@.len() && op_span(#[trigger] ops@[i], for_old).0 == r_.0),
 //@         (r_ != (0usize, 0usize) && r_.1 != 0) ==> (exists|i: int| 0 <= i < ops@.len() && op_span(#[trigger] ops@[i], for_old).1 == r_.1),
+//@         r_.0 as int == hunk_bounds(ops@, for_old).0, r_.1 as int == hunk_bounds(ops@, for_old).1,
 {
     let mut start = usize::MAX;
     let mut end = 0usize;
@@ -124,6 +141,7 @@ fn hunk_line_bounds(ops: &[DiffOp], for_old: bool) -> (r_: (usize, usize))
     //@         it_0.snapshot@.remaining().len() == ops@.len(),
     //@         forall|k: int| 0 <= k < ops@.len() ==> *(#[trigger] it_0.snapshot@.remaining()[k]) == ops@[k],
     //@         bounds_inv(ops@, for_old, it_0.index@, start as int, end as int),
+    //@         start as int == fold_start(ops@, for_old, it_0.index@), end as int == fold_end(ops@, for_old, it_0.index@),
     //@         start <= end || it_0.index@ == 0,
     {
         //@ proof { assert(*op == ops@[it_0.index@]); }
